@@ -45,7 +45,7 @@ CLAIMED = {
                      'for every address, no file grew, still valid. Concurrent configuration: 2-4 writers (processes, or threads sharing one cache object) '
                      'scheduled at file-system-call granularity (incl. 3-4 writers contending for one bundle with lock-retry timers '
                      'firing while the holder runs), checked at quiescence. Sequential histories also meet I/O errors (one-shot or sticky) inside '
-                     'a store/remove - the bundle must stay structurally valid - and dry-run defragmentations that must not change a byte. About one case in 100 '
+                     'a store/remove - the bundle must stay structurally valid - and dry-run defragmentations that must not change a byte. A defragmentation may meet one failing open() (it may abort, it must not lose a tile). About one case in 100 '
                      'extends a bundle beyond 4 GiB as a sparse file on tmpfs and validates it through mmap.',
                 note='trusted: the independent parser (checks/bundleparse.py), SimFS; histories and schedules are sampled',
                 technique='deterministic simulation: model-based history checking with an independent bundle parser; seeded schedule search for concurrent bundle writers'),
@@ -58,7 +58,7 @@ CLAIMED = {
                      'once, the call terminates; a second call on the same pool object is judged the same way. Call-site mode: 1-3 request '
                      'threads on one real TileManager each fan out 2-4 tile creations (TileCreator._create_threaded) with seeded failing '
                      'fetches: every caller gets its own tiles in input order, a failure reaches exactly the caller it belongs to. Pool re-use after a first call that the consumer abandoned at the first '
-                     'failing result (as the call sites do), with seeded garbage-collection points during the second call; busy processes (thousands of live threads) and one refused thread start.',
+                     'failing result (as the call sites do), with seeded garbage-collection points during the second call; busy processes (thousands of live threads), one refused thread start, nested fan-outs (up to 24 outer items); module-level semaphores/locks of async_ are scheduler-aware.',
                 note='trusted: SimQueue has queue.Queue semantics; pre-emption only at queue operations and explicit item steps',
                 technique='deterministic simulation: baton-passing scheduler adopting the pool\'s real worker threads, seeded completion-order search'),
     'C08': dict(level='exploration', ref='DESIGN.md 6.4',
@@ -82,7 +82,7 @@ CLAIMED = {
                      'file cache (also with symlinked single-colour tiles) on SimFS or per-level sqlite cache, plus two or three concurrent requests under a refresh rule; oracle from the timestamps actually recorded: stale tile => '
                      'upstream asked, tile rewritten with the new fetch generation; fresh tile => no upstream call, same '
                      'generation; a failed refresh never removes or changes the stored tile; a tile written during a request is recorded with '
-                     'the time of that write even when the source reports older data; single stored tiles may be aged (mixed-age meta tiles); a disk error may hit the store of a refreshed tile (the old tile must survive); an optional transparent overlay source may fail softly (the uncacheable result must not be stored); the seeding tile manager carries the cache\'s own refresh_before; same-second band unspecified. Cases run in seeded '
+                     'the time of that write even when the source reports older data; single stored tiles may be aged (mixed-age meta tiles); a disk error may hit the store of a refreshed tile (the old tile must survive); an optional transparent overlay source may fail softly (the uncacheable result must not be stored); the seeding tile manager carries the cache\'s own refresh_before; absolute thresholds also arrive as datetime objects; the tile manager may be built by the real loader (two grids); same-second band unspecified. Cases run in seeded '
                      'fixed-offset local time zones.',
                 note='trusted: simulated clock behind time.time/time.sleep/datetime.now of util/times.py, stub upstream, SimFS mtimes; '
                      'sqlite backend outside the simulator',
@@ -95,14 +95,14 @@ CLAIMED = {
                      'HTTPClient.open; oracle: identical validators and body while the fetch generation in the pixels is '
                      'unchanged, 304 + empty body for the current ETag, every 304 justified (also for the previous copy\'s validators, pre-1970 '
                      'dates and requests that themselves trigger the refresh), fill images carry no-store, get no 304 and are never '
-                     'served from the cache. The cache may sit on top of an inner cache with a larger tile size (fill images must stay uncacheable through the crop). A cacheable 404 mapping of the same colour may sit next to the uncached 500 one (the oracle replays what is stored per tile); race cases rewrite a tile through the cache API while it is served (a response\'s ETag may equal the stored tile\'s only if the bodies agree). A rewrite two or more seconds after the previous write must move Last-Modified on. Dates are written and read by the check\'s own code; cases run in seeded fixed-offset local time zones.',
+                     'served from the cache. The cache may carry an invisible watermark filter, WMS-C answers may be merged from two cached layers, and the cache may sit on top of an inner cache with a larger tile size (fill images must stay uncacheable through the crop). A cacheable 404 mapping of the same colour may sit next to the uncached 500 one (the oracle replays what is stored per tile); race cases rewrite a tile through the cache API while it is served (a response\'s ETag may equal the stored tile\'s only if the bodies agree). A rewrite two or more seconds after the previous write must move Last-Modified on. Dates are written and read by the check\'s own code; cases run in seeded fixed-offset local time zones.',
                 note='trusted: simulated HTTP transport and clock; sqlite backend outside the simulator; creating responses are '
                      'excluded from the equality clause',
                 technique='deterministic simulation: full WSGI stack over simulated clock, file system and upstream with HTTP-500 injection; model-based history checking'),
     'C12': dict(level='exploration', ref='DESIGN.md 6.6',
                 text='seeded cache contents (tiles stored at seeded simulated times, some in the same second; foreign objects: a '
                      'second cache, lock files, stray files) x one cleanup task (level list / range / open and zero-ended ranges / all; remove_all, remove_before as '
-                     'absolute time / relative age / file mtime, default; full extent, bbox (grid SRS or EPSG:4326), polygon or multi-part coverage; seeded fixed-offset local time zone and file time-stamp granularity; a deep variant places tiles around the bundle borders of levels 8/9 of a twelve-level pyramid; an earlier cleanup task of the same run may precede the task under test; directories may be older than their tiles; factor-2, sqrt2 and custom-resolution grids) built by the real '
+                     'absolute time / relative age / file mtime, default; full extent, bbox (grid SRS or EPSG:4326), polygon or multi-part coverage; seeded fixed-offset local time zone and file time-stamp granularity; a deep variant places tiles around the bundle borders of levels 8/9 of a twelve-level pyramid; an earlier cleanup task of the same run may precede the task under test; directories may be older than their tiles; removals may take seconds; factor-2, sqrt2 and custom-resolution grids) built by the real '
                      'CleanupConfiguration and executed by the real cleanup() - all three strategies, with the real '
                      'TileCleanupWorker threads under the scheduler - on file (6 layouts, linked single-colour tiles, cache-level refresh_before), compact v1/v2 (SimFS), sqlite, mbtiles, '
                      'geopackage (tmpfs); oracle from recorded timestamps and independent geometry: must-remove / must-keep / '
@@ -111,7 +111,7 @@ CLAIMED = {
                 technique='deterministic simulation: simulated clock + file system (readdir order permuted), real cleanup workers under the baton scheduler, model-based checking'),
     'C11': dict(level='exploration', ref='DESIGN.md 6.5',
                 text='seeded seed tasks (factor-2 / sqrt2 / custom-resolution grids, non-square extents, ll/ul origin, level '
-                     'subsets given as lists, ranges (open, zero-ended, beyond the grid) or resolutions, bbox / concave / multi-part coverages and two coverages per seed entry in the grid SRS or EPSG:4326, one or two caches per seed entry, meta sizes, skip_geoms_for_last_levels, progress cadence, '
+                     'subsets given as lists, ranges (open, zero-ended, beyond the grid) or resolutions, bbox / concave / multi-part / single-tile coverages and two coverages per seed entry in the grid SRS or EPSG:4326, grids with near-coincident tile borders, one or two caches per seed entry, meta sizes, skip_geoms_for_last_levels, progress cadence, '
                      'per-hand-off simulated work time) run through the real seed()/TileWalker/SeedProgress/ProgressLog/ProgressStore '
                      'with a recording pool at the hand-off; uninterrupted run compared with a brute-force shapely oracle over whole '
                      'levels (complete up to one pixel of the finest selected level, minimal up to a one-pixel band); then the same task with 1-3 seeded interruptions '
